@@ -221,14 +221,26 @@ func c09Test(k c09Case) string {
 // set); if it fails with debug off, only in the status (the configured ok status) and in Access-Control-*
 // headers other than Expose-Headers. Vary, body and handler invocation never differ.
 func c09Diag(name string, r vlib.Req) *vlib.Failure {
+	if f := c09DiagP(name, r, nil); f != nil {
+		return f
+	}
+	// the same behind an outer layer that already set Vary (two field lines) and an unrelated header
+	if f := c09DiagP(name, r, map[string][]string{"Vary": {"Accept-Encoding", "Cookie"}, "X-Outer": {"1"}}); f != nil {
+		f.Detail = "with Vary and X-Outer pre-set by an outer layer: " + f.Detail
+		return f
+	}
+	return nil
+}
+
+func c09DiagP(name string, r vlib.Req, preset map[string][]string) *vlib.Failure {
 	mOff, err1 := smFresh(smRef{name, false})
 	mOn, err2 := smFresh(smRef{name, true})
 	if err1 != nil || err2 != nil {
 		return vlib.Failf("configuration %s rejected: %v %v", name, err1, err2)
 	}
 	innerOff, innerOn := &vlib.Noop{}, &vlib.Noop{}
-	a := vlib.Serve(mOff.Wrap(innerOff), &innerOff.Calls, r, nil)
-	b := vlib.Serve(mOn.Wrap(innerOn), &innerOn.Calls, r, nil)
+	a := vlib.Serve(mOff.Wrap(innerOff), &innerOff.Calls, r, preset)
+	b := vlib.Serve(mOn.Wrap(innerOn), &innerOn.Calls, r, preset)
 	if a.ExtraWrites > 0 || b.ExtraWrites > 0 {
 		return vlib.Failf("configuration %s: the middleware calls WriteHeader more than once for %s (debug off: %d extra calls, debug on: %d)", name, r, a.ExtraWrites, b.ExtraWrites)
 	}
@@ -284,6 +296,9 @@ func c09Diag(name string, r vlib.Req) *vlib.Failure {
 		}
 	default:
 		for hk := range b.Hdr {
+			if _, outer := preset[hk]; outer {
+				continue
+			}
 			if hk != "Vary" && (!strings.HasPrefix(hk, "Access-Control-") || hk == "Access-Control-Expose-Headers") {
 				why = "debug mode adds header " + hk + " to a failing preflight"
 			}
@@ -324,7 +339,7 @@ func c09Diag(name string, r vlib.Req) *vlib.Failure {
 			}
 			hdr["Access-Control-Request-Method"] = []string{"GET"}
 			delete(hdr, "Access-Control-Request-Headers")
-			cp := vlib.Serve(mOn.Wrap(innerOn), &innerOn.Calls, vlib.Req{Method: "OPTIONS", Hdr: hdr}, nil)
+			cp := vlib.Serve(mOn.Wrap(innerOn), &innerOn.Calls, vlib.Req{Method: "OPTIONS", Hdr: hdr}, preset)
 			if cp.Status/100 != 2 || len(cp.Hdr["Access-Control-Allow-Origin"]) == 0 {
 				continue // the counterpart fails too: an earlier step is at fault
 			}
